@@ -1,3 +1,4 @@
+open BinNat
 open BinNums
 open BinPos
 open Datatypes
@@ -20,6 +21,10 @@ module Z :
 
   val mul : coq_Z -> coq_Z -> coq_Z
 
+  val pow_pos : coq_Z -> positive -> coq_Z
+
+  val pow : coq_Z -> coq_Z -> coq_Z
+
   val compare : coq_Z -> coq_Z -> comparison
 
   val leb : coq_Z -> coq_Z -> bool
@@ -32,9 +37,13 @@ module Z :
 
   val eqb : coq_Z -> coq_Z -> bool
 
+  val abs : coq_Z -> coq_Z
+
   val to_nat : coq_Z -> nat
 
   val of_nat : nat -> coq_Z
+
+  val of_N : coq_N -> coq_Z
 
   val pos_div_eucl : positive -> coq_Z -> coq_Z * coq_Z
 
@@ -43,4 +52,22 @@ module Z :
   val div : coq_Z -> coq_Z -> coq_Z
 
   val modulo : coq_Z -> coq_Z -> coq_Z
+
+  val quotrem : coq_Z -> coq_Z -> coq_Z * coq_Z
+
+  val quot : coq_Z -> coq_Z -> coq_Z
+
+  val rem : coq_Z -> coq_Z -> coq_Z
+
+  val even : coq_Z -> bool
+
+  val odd : coq_Z -> bool
+
+  val div2 : coq_Z -> coq_Z
+
+  val log2 : coq_Z -> coq_Z
+
+  val shiftl : coq_Z -> coq_Z -> coq_Z
+
+  val shiftr : coq_Z -> coq_Z -> coq_Z
  end
